@@ -1,4 +1,5 @@
 import PlaybackProofs.Async
+import PlaybackProofs.AsyncCaller
 /-!
 # C12 — Asynchronous recording stores exactly what synchronous recording would
 
@@ -90,6 +91,52 @@ theorem C12_equals_sync (app : W → Op → W × Bool) (w0 : W) (rq : List Op) (
     refine (prefix_antisymm_eq hpre ?_).symm
     exact hseq.2.trans ⟨rest, hrest⟩
   rw [← hseq.1, hops]
+
+/-! ### The caller's side: closed recordings, `save_recording`, `abort_recording`
+
+`Req` / `forward` / `direct` (`PlaybackModel/AsyncCaller.lean`): what one caller asks of `AsyncRecording` objects, what the
+wrapper buffers for it, and the same requests made directly on the wrapped cassette.  `abort_recording` is never forwarded
+(it only closes the caller-side recording); a write to a recording that was saved or aborted is refused on the caller's side
+and never buffered; `save_recording` after an abort is buffered like any other save. -/
+
+open PlaybackModel.AsyncCaller in
+/-- Requests of one caller, any mix of writes, saves and aborts on any recordings, in any order (writes after a save, a save
+after one or two aborts, ...): applying what the wrapper buffers for them, in order, leaves in the wrapped cassette - for
+every recording - the data, the metadata and the saved snapshot that making the same requests directly on the wrapped
+cassette leaves; the caller sees the same outcome (accepted / `AssertionError`) for every request either way; and no buffered
+operation fails on the wrapped side. -/
+theorem C12_caller_side (prod : Nat) (reqs : List Req) :
+    (∀ n, view (syncRun applyOp Store.empty (forward prod 0 (fun _ => false) reqs).1).1 n
+        = view (direct Store.empty reqs).1 n) ∧
+    (forward prod 0 (fun _ => false) reqs).2 = (direct Store.empty reqs).2 ∧
+    (∀ x ∈ (syncRun applyOp Store.empty (forward prod 0 (fun _ => false) reqs).1).2, x.2 = true) :=
+  PlaybackProofs.AsyncCaller.forward_direct prod reqs 0 _ _ _ PlaybackProofs.AsyncCaller.inv_init
+
+open PlaybackModel.AsyncCaller in
+/-- End to end, one caller, under every schedule of the caller, the flusher, the timer and `close()`: once the flusher has
+stopped and everything the wrapper buffered for the caller's requests was buffered before `close()`, the wrapped in-memory
+cassette holds for every recording what recording directly would have stored - aborts and writes to finalised recordings
+included. -/
+theorem C12_equals_direct_with_aborts (reqs : List Req) (sched : List Step)
+    (hstop : (run Cfg.code applyOp (init Store.empty [(forward 0 0 (fun _ => false) reqs).1]) sched).fl = .stopped)
+    (hall : (run Cfg.code applyOp (init Store.empty [(forward 0 0 (fun _ => false) reqs).1]) sched).beforeClose
+      = (forward 0 0 (fun _ => false) reqs).1) (n : Nat) :
+    view (run Cfg.code applyOp (init Store.empty [(forward 0 0 (fun _ => false) reqs).1]) sched).store n
+      = view (direct Store.empty reqs).1 n := by
+  have h := C12_equals_sync applyOp Store.empty (forward 0 0 (fun _ => false) reqs).1 sched hstop hall
+  have hs : (run Cfg.code applyOp (init Store.empty [(forward 0 0 (fun _ => false) reqs).1]) sched).store
+      = (syncRun applyOp Store.empty (forward 0 0 (fun _ => false) reqs).1).1 := by
+    rw [← h]
+  rw [hs]
+  exact (C12_caller_side 0 reqs).1 n
+
+open PlaybackModel.AsyncCaller in
+/-- write, abort, write (refused), save, write (refused): the save stores what was written before the abort -/
+example :
+    (forward 0 0 (fun _ => false) [⟨0, .setData 1 7⟩, ⟨0, .abort⟩, ⟨0, .setData 2 8⟩, ⟨0, .save⟩, ⟨0, .addMeta 1 9⟩]).2
+      = [true, true, false, true, false] ∧
+    ((direct Store.empty [⟨0, .setData 1 7⟩, ⟨0, .abort⟩, ⟨0, .setData 2 8⟩, ⟨0, .save⟩, ⟨0, .addMeta 1 9⟩]).1 0).saved
+      = some ([(1, 7)], []) := by decide
 
 /-- Several producers, each writing to its own recordings (`owner`), against the in-memory cassette: once the flusher has
 stopped and every program was requested before `close()`, the store equals that of the synchronous twin in which the
